@@ -3,7 +3,7 @@ CONSTANTS
   MaxLen = 5
   MaxDepth = 2
   Conds = {"T", "F", "D", "V"}
-  Kinds = {"if", "elif", "ifdef", "ifndef", "elifdef", "elifndef", "else", "endif", "text", "def0", "def1", "undef", "warn", "err", "inc", "inc2", "push", "pop"}
+  Kinds = {"if", "elif", "ifdef", "ifndef", "elifdef", "elifndef", "else", "endif", "text", "def0", "def1", "undef", "warn", "err", "inc", "inc2", "push", "pop", "noise"}
   MinDump = 5
 INVARIANT Refines
 INVARIANT ClosedNormal
